@@ -156,3 +156,19 @@ Print Assumptions C15_delete_frame.
 Print Assumptions C15_int.
 Print Assumptions C15_int_set_item.
 Print Assumptions C15_slice.
+
+(* ---- membership and lookup by a str key are the Python's -------------------------------------------
+   contains and getitem (KStr) equal SectionItems.__contains__ and SectionItems.__getitem__,
+   re-translated on every run from /repo (translators/funcs.py -> Gen/Funcs.v) for a key that is a str
+   (the slice / int / item branches are unreachable for a str; they stay hand-modelled and tied by the
+   correspondence run).  pitem_of shows a model item as the object the translated code reads;
+   None = KeyError. *)
+Require Import Funcs FuncsPinSection.
+Theorem C15_contains_current : forall s m,
+  contains s m = py_section_contains (transforms s) (List.map pitem_of (items s)) m.
+Proof. exact section_contains_pin. Qed.
+Theorem C15_getitem_current : forall s m,
+  ires_item (getitem s (KStr m)) = py_section_getitem (transforms s) (List.map pitem_of (items s)) m.
+Proof. exact section_getitem_pin. Qed.
+Print Assumptions C15_contains_current.
+Print Assumptions C15_getitem_current.
